@@ -50,7 +50,7 @@ def hkey(v):
             return int(v)
         if v.is_Rational:
             return v
-        raise AnalysisError(f"non-constant used as a key: {v}")
+        raise AnalysisError("non-constant used as a key")
     if isinstance(v, Tup):
         return tuple(hkey(i) for i in v.items)
     if isinstance(v, Obj) and "__fields__" in v.attrs:
@@ -182,6 +182,18 @@ class Opaque:
 
     def __repr__(self):
         return f"Opaque({self.name})"
+
+
+class SuperV:
+    def __init__(self, obj, cls):
+        self.obj, self.cls = obj, cls
+
+
+class PairList:
+    """a mapping keyed by objects compared with == (the data of a UserDict whose keys define __eq__)"""
+
+    def __init__(self):
+        self.pairs = []
 
 
 class EnumV:
@@ -325,6 +337,17 @@ class Ev:
     def get_attr(self, v, name, node=None, mod=None):
         if isinstance(v, Masked):
             v = v.val
+        if isinstance(v, SuperV):
+            mro = self.model.mro(v.obj.cls)
+            after = mro[mro.index(v.cls) + 1:] if v.cls in mro else []
+            for c in after:
+                if c.startswith("ext:"):
+                    return BoundLib(f"{c[4:]}.{name}", v.obj)
+                mname, q = c.split(":")
+                f = self.model.mods[mname].funcs.get(f"{q}.{name}")
+                if f is not None:
+                    return FuncV(f"{c}.{name}", bound=v.obj)
+            raise self.err(f"super().{name} not found", node, mod)
         if hasattr(v, "sym_getattr"):
             return v.sym_getattr(self, name, node, mod)
         if isinstance(v, Obj) and name == "_asdict" and "__fields__" in v.attrs:
@@ -376,7 +399,9 @@ class Ev:
                 return self.eval(f, {}, m)
         if isinstance(v, str) and name in STR_METHODS:
             return BoundLib(f"str.{name}", v)
-        if isinstance(v, Tup) and name in ("append", "index", "tolist", "extend", "count", "copy"):
+        if isinstance(v, PairList) and name in ("items", "keys", "values"):
+            return BoundLib(f"pairlist.{name}", v)
+        if isinstance(v, Tup) and name in ("append", "index", "tolist", "extend", "count", "copy", "pop"):
             return BoundLib(f"list.{name}", v)
         if isinstance(v, MatchV) and name in ("group", "groups"):
             return BoundLib(f"match.{name}", v)
@@ -803,6 +828,14 @@ class Ev:
 
         if isinstance(op, (ast.Eq, ast.NotEq)) and ((a is None) != (b is None)):
             return isinstance(op, ast.NotEq)
+        if isinstance(op, (ast.Eq, ast.NotEq)) and isinstance(a, Obj) and not a.cls.startswith("ext:") and not hasattr(a, "const_key"):
+            owner, eqf, kind = self.model.find_member(a.cls, "__eq__")
+            if eqf is not None:
+                omod = self.model.mods[owner.split(":")[0]]
+                r = self.truth(self.call_def(eqf, omod, f"{owner}.__eq__", [a, b], {}), n, mod)
+                return r if isinstance(op, ast.Eq) else not r
+            if isinstance(b, Obj) and "__fields__" not in a.attrs:
+                return (a is b) if isinstance(op, ast.Eq) else (a is not b)
         if isinstance(op, (ast.Is, ast.IsNot)):
             r = (a is b) or (a is None and b is None)
             if not (a is None or b is None or isinstance(a, bool) or isinstance(b, bool)):
@@ -1014,6 +1047,12 @@ class Ev:
     # ------------------------------------------------------------ calls
     def e_Call(self, n, env, mod):
         self.call_sites += 1
+        if isinstance(n.func, ast.Name) and n.func.id == "super" and not n.args and "super" not in env:
+            qual = env.get("__qual__", "")
+            if ":" not in qual or "." not in qual.split(":")[1] or "__self__" not in env:
+                raise self.err("super() outside a method", n, mod)
+            cref = qual.split(":")[0] + ":" + qual.split(":")[1].rsplit(".", 1)[0]
+            return SuperV(env["__self__"], cref)
         f = self.eval(n.func, env, mod)
         args, kwargs = [], {}
         for a in n.args:
@@ -1085,6 +1124,11 @@ class Ev:
                 obj.attrs[k] = v
             obj.attrs["__fields__"] = fields
             return obj
+        for bname in self.model.mro(cref):
+            if bname.startswith("ext:") and bname.endswith("UserDict"):
+                obj.attrs.setdefault("data", PairList())
+            if bname.startswith("ext:") and bname.endswith("UserList"):
+                obj.attrs.setdefault("data", Tup([], "list"))
         owner, init, _ = self.model.find_member(cref, "__init__")
         if init is not None:
             omod = self.model.mods[owner.split(":")[0]]
@@ -1127,6 +1171,10 @@ class Ev:
 
     def call_def(self, fd, fmod, ref, args, kwargs, closure=None, collect_self=None):
         def akey(v):
+            if isinstance(v, sp.Basic) and not v.is_number:
+                return ("id", id(v))
+            if isinstance(v, (ArrV, DictV)) or (isinstance(v, Obj) and not hasattr(v, "const_key") and "__fields__" not in v.attrs):
+                return ("id", id(v))
             try:
                 return hkey(v)
             except AnalysisError:
@@ -1150,9 +1198,8 @@ class Ev:
                 env["__self__"] = args[0]
             env["__masks__"] = {}
             env["__qual__"] = ref
-            from .cfg import DefiniteAssignment
-            env["__locals__"] = DefiniteAssignment.collect_locals(fd) - set(closure or {})
-            is_gen = has_own_yield(fd)
+            env["__locals__"] = _locals_of(fd) - set(closure or {})
+            is_gen = _is_gen(fd)
             if is_gen:
                 env["__yields__"] = []
             try:
@@ -1242,6 +1289,15 @@ class Ev:
             hook = self.seeds.get((base.cls, "__setitem__"))
             if hook:
                 return hook(self, base, idx, v)
+            if not base.cls.startswith("ext:"):
+                owner, si, kind = self.model.find_member(base.cls, "__setitem__")
+                if si is not None:
+                    omod = self.model.mods[owner.split(":")[0]]
+                    self.call_def(si, omod, f"{owner}.__setitem__", [base, idx, v], {})
+                    return
+                for bname in self.model.mro(base.cls):
+                    if bname.startswith("ext:") and f"{bname[4:]}.__setitem__" in LIB:
+                        return LIB[f"{bname[4:]}.__setitem__"](self, [base, idx, v], {}, t, mod)
         if isinstance(base, ArrV):
             items = idx.items if isinstance(idx, Tup) else [idx]
             sets, scalar = base.index_sets(items, self, t, mod)
@@ -1493,6 +1549,24 @@ BUILTINS = {"len", "range", "tuple", "list", "sorted", "zip", "map", "int", "flo
             "print", "type", "callable", "getattr", "repr", "hash", "bool"}
 
 
+_LOC_CACHE, _GEN_CACHE = {}, {}
+
+
+def _locals_of(fd):
+    k = id(fd)
+    if k not in _LOC_CACHE:
+        from .cfg import DefiniteAssignment
+        _LOC_CACHE[k] = (fd, DefiniteAssignment.collect_locals(fd))
+    return _LOC_CACHE[k][1]
+
+
+def _is_gen(fd):
+    k = id(fd)
+    if k not in _GEN_CACHE:
+        _GEN_CACHE[k] = (fd, has_own_yield(fd))
+    return _GEN_CACHE[k][1]
+
+
 def has_own_yield(fd):
     """a yield in the function's own body (nested defs and lambdas excluded)"""
     todo = list(fd.body)
@@ -1712,6 +1786,12 @@ def lib_isinstance(ev, a, k, n, mod):
         return isinstance(v, str)
     if tn == "builtins.dict":
         return isinstance(v, DictV)
+    if isinstance(t, ClsV):
+        return isinstance(v, Obj) and not v.cls.startswith("ext:") and t.ref in ev.model.mro(v.cls)
+    if tn in ("builtins.int", "builtins.float"):
+        return is_sym(v) and bool(v.is_number)
+    if tn == "builtins.list":
+        return isinstance(v, Tup) and v.kind == "list"
     raise ev.err("isinstance() on an unsupported type", n, mod)
 
 
@@ -2095,3 +2175,56 @@ def lib_dict_pop(ev, a, k, n, mod):
 
 LIB.update({"dict.update": lib_dict_update, "dict.copy": lib_dict_copy, "namedtuple._asdict": lib_asdict, "dict.pop": lib_dict_pop})
 lib_dict_update.kw = None
+
+
+def _same(ev, a, b, n=None, mod=None):
+    if a is b:
+        return True
+    try:
+        return bool(ev.compare(ast.Eq(), a, b, n, mod))
+    except AnalysisError:
+        return False
+
+
+def lib_list_index2(ev, a, k, n, mod):
+    for i, x in enumerate(a[0].items):
+        if _same(ev, x, a[1], n, mod):
+            return sp.Integer(i)
+    raise RaisedV("ValueError")
+
+
+def lib_list_pop(ev, a, k, n, mod):
+    lst = a[0]
+    if not lst.items:
+        raise RaisedV("IndexError")
+    idx = _const_int(a[1]) if len(a) > 1 else -1
+    return lst.items.pop(idx)
+
+
+def lib_userdict_setitem(ev, a, k, n, mod):
+    obj, key, val = a
+    data = obj.attrs["data"]
+    for i, (kk, vv) in enumerate(data.pairs):
+        if _same(ev, kk, key, n, mod):
+            data.pairs[i] = (kk, val)
+            return None
+    data.pairs.append((key, val))
+    return None
+
+
+def lib_userdict_init(ev, a, k, n, mod):
+    a[0].attrs["data"] = PairList()
+    return None
+
+
+def lib_userlist_init(ev, a, k, n, mod):
+    a[0].attrs["data"] = Tup([], "list")
+    return None
+
+
+LIB.update({"list.index": lib_list_index2, "list.pop": lib_list_pop,
+            "collections.UserDict.__setitem__": lib_userdict_setitem, "collections.UserDict.__init__": lib_userdict_init,
+            "collections.UserList.__init__": lib_userlist_init,
+            "pairlist.items": lambda ev, a, k, n, mod: Tup([Tup([kk, vv]) for kk, vv in a[0].pairs], "list"),
+            "pairlist.keys": lambda ev, a, k, n, mod: Tup([kk for kk, vv in a[0].pairs], "list"),
+            "pairlist.values": lambda ev, a, k, n, mod: Tup([vv for kk, vv in a[0].pairs], "list")})
